@@ -584,6 +584,8 @@ fn read_bam_raw(data: &Arc<Vec<u8>>, d: &Delivery, opts: &ReadOpts, eager: bool)
 
 pub struct SamDriver {
     pub bgzipped: bool,
+    /// read through `Reader::read_record` into a reused lazy `sam::Record` (plain text only)
+    pub lazy: bool,
 }
 
 pub fn write_sam<W: Write>(d: &AlnDoc, mut w: sam::io::Writer<W>) -> io::Result<W> {
@@ -596,7 +598,7 @@ pub fn write_sam<W: Write>(d: &AlnDoc, mut w: sam::io::Writer<W>) -> io::Result<
     Ok(w.into_inner())
 }
 
-fn read_sam_stream<R: BufRead>(mut r: sam::io::Reader<R>, tx: &mut Tx, vpos: &dyn Fn(&sam::io::Reader<R>) -> Option<u64>) {
+fn read_sam_stream<R: BufRead>(mut r: sam::io::Reader<R>, tx: &mut Tx, vpos: &dyn Fn(&sam::io::Reader<R>) -> Option<u64>, lazy: bool) {
     let header = match r.read_header() {
         Ok(h) => h,
         Err(e) => {
@@ -605,8 +607,31 @@ fn read_sam_stream<R: BufRead>(mut r: sam::io::Reader<R>, tx: &mut Tx, vpos: &dy
         }
     };
     tx.push(Ev::Header(sam_header_text(&header)));
-    if tx.opts.sweep {
-        // lazy records too
+    if lazy {
+        // `Reader::read_record` into one reused `sam::Record`, decoded through the record trait
+        let mut rec = sam::Record::default();
+        loop {
+            match r.read_record(&mut rec) {
+                Ok(0) => {
+                    tx.push(Ev::Eof);
+                    break;
+                }
+                Ok(_) => {
+                    let go = match sam::alignment::RecordBuf::try_from_alignment_record(&header, &rec) {
+                        Ok(buf) => tx.push(Ev::Record(format!("{buf:?}"))),
+                        Err(e) => tx.push(err_ev("decode", &e)),
+                    };
+                    if !go {
+                        break;
+                    }
+                }
+                Err(e) => {
+                    tx.push(err_ev("record", &e));
+                    break;
+                }
+            }
+        }
+        return;
     }
     let mut rec = sam::alignment::RecordBuf::default();
     loop {
@@ -662,7 +687,7 @@ pub fn sweep_sam_lazy(data: &[u8], exclude_known_hangs: bool) {
 
 impl Driver for SamDriver {
     fn name(&self) -> &'static str {
-        if self.bgzipped { "sam.gz" } else { "sam" }
+        if self.bgzipped { "sam.gz" } else if self.lazy { "sam-lazy" } else { "sam" }
     }
     fn family(&self) -> Family {
         Family::Alignment
@@ -697,7 +722,7 @@ impl Driver for SamDriver {
         if self.bgzipped {
             let (src, st) = open_read(data, d);
             let r = sam::io::Reader::new(bgzf::io::Reader::new(src));
-            read_sam_stream(r, &mut tx, &|r| Some(bgzf_vpos(r.get_ref())));
+            read_sam_stream(r, &mut tx, &|r| Some(bgzf_vpos(r.get_ref())), self.lazy);
             (tx.t, st)
         } else {
             let (src, st) = open_bufread(data, d);
@@ -705,12 +730,15 @@ impl Driver for SamDriver {
                 sweep_sam_lazy(data, opts.exclude_known_hangs);
             }
             let r = sam::io::Reader::new(src);
-            read_sam_stream(r, &mut tx, &|_| None);
+            read_sam_stream(r, &mut tx, &|_| None, self.lazy);
             (tx.t, st)
         }
     }
+    fn raw_input(&self, doc: &Doc) -> Option<Vec<u8>> {
+        if self.bgzipped { None } else { aln_of(doc).ok().map(|d| d.sam_text("unsorted").into_bytes()) }
+    }
     fn has_async(&self) -> (bool, bool) {
-        (!self.bgzipped, !self.bgzipped)
+        (!self.bgzipped && !self.lazy, !self.bgzipped && !self.lazy)
     }
 }
 
@@ -968,6 +996,9 @@ impl Driver for VcfDriver {
             (tx.t, st)
         }
     }
+    fn raw_input(&self, doc: &Doc) -> Option<Vec<u8>> {
+        if self.bgzipped { None } else { var_of(doc).ok().map(|d| d.vcf_text().into_bytes()) }
+    }
     fn has_async(&self) -> (bool, bool) {
         (!self.bgzipped, !self.bgzipped)
     }
@@ -1097,6 +1128,8 @@ fn read_bcf_stream<R: Read>(mut r: bcf::io::Reader<R>, tx: &mut Tx, vpos: &dyn F
 #[derive(Clone, Copy, PartialEq, Eq, Debug)]
 pub enum TextKind {
     Fasta,
+    /// FASTA text read by `fasta::io::Indexer` (the events are the `.fai` records it builds)
+    FastaIndexer,
     Fastq,
     Gff,
     Gtf,
@@ -1148,7 +1181,7 @@ fn others<const N: usize>(rec: &bed::Record<N>) -> String {
 impl TextDriver {
     fn write_records(&self, text: &[u8], sink: &mut dyn Write) -> io::Result<()> {
         match self.kind {
-            TextKind::Fasta => {
+            TextKind::Fasta | TextKind::FastaIndexer => {
                 let mut r = fasta::io::Reader::new(text);
                 let mut w = fasta::io::Writer::new(sink);
                 for rec in r.records() {
@@ -1225,6 +1258,7 @@ impl Driver for TextDriver {
     fn name(&self) -> &'static str {
         match self.kind {
             TextKind::Fasta => "fasta",
+            TextKind::FastaIndexer => "fasta-indexer",
             TextKind::Fastq => "fastq",
             TextKind::Gff => "gff",
             TextKind::Gtf => "gtf",
@@ -1242,7 +1276,7 @@ impl Driver for TextDriver {
     }
     fn doc(&self, _tier: Tier) -> BoxedStrategy<Doc> {
         match self.kind {
-            TextKind::Fasta => fasta_doc(),
+            TextKind::Fasta | TextKind::FastaIndexer => fasta_doc(),
             TextKind::Fastq => fastq_doc(),
             TextKind::Gff => gff_doc(),
             TextKind::Gtf => gtf_doc(),
@@ -1282,6 +1316,30 @@ impl Driver for TextDriver {
                 }
                 if !ended {
                     tx.push(Ev::Eof);
+                }
+            }
+            TextKind::FastaIndexer => {
+                let mut ix = fasta::io::Indexer::new(src);
+                loop {
+                    match ix.index_record() {
+                        Ok(None) => {
+                            tx.push(Ev::Eof);
+                            break;
+                        }
+                        Ok(Some(rec)) => {
+                            if !tx.push(Ev::Record(format!("{rec:?}"))) {
+                                break;
+                            }
+                        }
+                        Err(e) => {
+                            // an I/O error is reported by its kind, like every other driver's
+                            match std::error::Error::source(&e).and_then(|s| s.downcast_ref::<io::Error>()) {
+                                Some(io_e) => tx.push(err_ev("record", io_e)),
+                                None => tx.push(Ev::Err { stage: "record", kind: format!("{e:?}") }),
+                            };
+                            break;
+                        }
+                    }
                 }
             }
             TextKind::Fastq => {
@@ -1400,6 +1458,9 @@ impl Driver for TextDriver {
             }
         }
         (tx.t, st)
+    }
+    fn raw_input(&self, doc: &Doc) -> Option<Vec<u8>> {
+        text_of(doc).ok().map(|t| t.render())
     }
     fn has_async(&self) -> (bool, bool) {
         match self.kind {
@@ -1764,14 +1825,16 @@ pub fn all() -> Vec<Box<dyn Driver>> {
         Box::new(BamDriver { eager: true, raw: false }),
         Box::new(BamDriver { eager: false, raw: true }),
         Box::new(BamDriver { eager: true, raw: true }),
-        Box::new(SamDriver { bgzipped: false }),
-        Box::new(SamDriver { bgzipped: true }),
+        Box::new(SamDriver { bgzipped: false, lazy: false }),
+        Box::new(SamDriver { bgzipped: false, lazy: true }),
+        Box::new(SamDriver { bgzipped: true, lazy: false }),
         Box::new(CramDriver),
         Box::new(VcfDriver { bgzipped: false }),
         Box::new(VcfDriver { bgzipped: true }),
         Box::new(BcfDriver { raw: false }),
         Box::new(BcfDriver { raw: true }),
         Box::new(TextDriver { kind: TextKind::Fasta }),
+        Box::new(TextDriver { kind: TextKind::FastaIndexer }),
         Box::new(TextDriver { kind: TextKind::Fastq }),
         Box::new(TextDriver { kind: TextKind::Gff }),
         Box::new(TextDriver { kind: TextKind::Gtf }),
